@@ -74,18 +74,6 @@ type c13Pair struct {
 	standaloneOpen *salamanderObfuscator
 }
 
-func c13Unwrap(pc net.PacketConn) (*obfsPacketConn, *salamanderObfuscator, string) {
-	c, ok := pc.(*obfsPacketConn)
-	if !ok {
-		return nil, nil, fmt.Sprintf("WrapPacketConnSalamander returned %T, expected *obfsPacketConn", pc)
-	}
-	ob, ok := c.Obfs.(*salamanderObfuscator)
-	if !ok {
-		return nil, nil, fmt.Sprintf("wrapped socket uses %T, expected *salamanderObfuscator", c.Obfs)
-	}
-	return c, ob, ""
-}
-
 func c13NewPair(key []byte) (*c13Pair, string) {
 	p := &c13Pair{key: key, addrA: c13Addr(4001), addrB: c13Addr(4002), junkAddr: c13Addr(6666)}
 	p.innerA = vnet.NewPacketConn("innerA", 4001)
